@@ -1286,6 +1286,7 @@ static int32 tls13WriteCertificateVerify(ssl_t *ssl, sslBuf_t *out)
             if (rc < 0)
             {
                 psFree(ssl->sec.tls13CvSig, ssl->hsPool);
+                ssl->sec.tls13CvSig = NULL;
                 psFree(ssl->hsPool, tbs);
                 psTraceErrr("Could not verify own sig!!\n");
                 psDynBufUninit(&cvBuf);
@@ -1588,6 +1589,7 @@ static inline
 void tls13ClearHsTemporaryState(ssl_t *ssl)
 {
     psFree(ssl->sec.tls13CvSig, ssl->hsPool);
+    ssl->sec.tls13CvSig = NULL;
     Memset(&ssl->sec.tls13KsState, 0, sizeof(ssl->sec.tls13KsState));
 }
 
@@ -2511,6 +2513,8 @@ int32 tls13WriteClientHello(ssl_t *ssl, sslBuf_t *out,
             if (ssl->tls13ClientCipherSuites == NULL)
             {
                 psTraceErrr("Out of mem in tls13WriteClientHello\n");
+                psDynBufUninit(&ciphersBuf);
+                psDynBufUninit(&chBuf);
                 goto out_internal_error;
             }
             for (i = 0; i < cipherSpecsLen; i++)
